@@ -623,6 +623,8 @@ func C06(run *report.Run) {
 		world.IntCfg(2, []int{1, 2, 4}, []interface{}{[]int{1}, []int{2, 3}}, []int{}, B, "none"),
 		world.IntCfg(2, []int{1, 2, 4}, []interface{}{world.TVal{Tags: []string{"x"}}, world.TVal{Tags: []string{"y"}, M: map[string]int{"q": 1}}}, world.TVal{}, M, "none"),
 		nilValues(world.IntCfg(2, []int{1, 2, 3, 4, 8}, []interface{}{nil}, nil, B, "none")),
+		// a comparator that answers -3/0/3
+		world.Wide(world.UintCfg(2, urange(1, 4), 2, M, "none")),
 	}
 	if run.Thorough() {
 		cfgs = append(cfgs, world.UintCfg(2, urange(1, 5), 2, B, "none"), world.UintCfg(3, ulist(1, 2, 3, 4, 6, 9), 1, B, "none"))
